@@ -596,16 +596,42 @@ def spec_view(s):
     return out
 
 
-def diff(spec, real, late=0):
+def diff(spec, real, late=0, shut=None, window=False):
     """`late`: connection whose late response is half handled - its in_flight / orphan set are in flux inside
-    process_msg and are not compared until the callback is over (what the property needs is judged through the
-    steps other threads take meanwhile)."""
+    process_msg and are not compared until the callback is over.
+    `shut`: the connections a running shutdown() has to close (current and trashed ones when is_shutdown was set).
+    C12 fixes neither the step at which shutdown() empties _trash / _connection nor the order in which it closes them:
+    while it runs (`window`) the bookkeeping fields and the state of those connections (and of the requests on them)
+    are not compared; when it has returned everything is compared again, a request on one of those connections
+    counting as failed whether its send was refused or its handler got the connection error."""
     out = {}
+    shut = set(shut or ())
     for k in PoolHarness.VARS:
         a, b = spec[k], real[k]
         if late and k in ("inflight", "orph"):
             a = {c: v for c, v in a.items() if c != late}
             b = {c: v for c, v in b.items() if c != late}
+        if shut and window:
+            if k in ("cur", "trash"):
+                continue
+            if k in PoolHarness.CVARS:
+                a = {c: v for c, v in a.items() if c not in shut}
+                b = {c: v for c, v in b.items() if c not in shut}
+        if shut and not window and k in ("inflight", "orph", "reg", "owed", "signaled"):
+            # closed by shutdown(): C12 asks that they are closed and that in_flight is not negative (checked below)
+            a = {c: v for c, v in a.items() if c not in shut}
+            b = {c: v for c, v in b.items() if c not in shut}
+            if k == "inflight" and any(v < 0 for v in real[k].values()):
+                b = dict(b, _negative=True)
+        if shut and k == "st":
+            on_shut = {r for r in a if spec["on"].get(r) in shut or real["on"].get(r) in shut}
+            if window:
+                a = {r: v for r, v in a.items() if r not in on_shut}
+                b = {r: v for r, v in b.items() if r not in on_shut}
+            else:
+                norm = lambda r, v: "failed" if r in on_shut and v in ("errored", "refused", "timedout") else v      # noqa: E731
+                a = {r: norm(r, v) for r, v in a.items()}
+                b = {r: norm(r, v) for r, v in b.items()}
         if a != b:
             out[k] = {"spec": spec[k], "code": real[k]}
     return out
@@ -677,18 +703,28 @@ def replay(constants, states, repair=True):
         d = diff(spec_view(states[0]), h.project())
         if d:
             return {"step": 0, "action": {"name": "Init"}, "diff": d, "signature": "replay:Init"}, met
+        shut = set()
         for i, s in enumerate(states[1:], 1):
             act = dict(s["act"])
+            if act["name"] == "ShutdownMark":
+                shut = ({states[i - 1]["cur"]} | set(states[i - 1]["trash"])) - {0}
+            window = s["sd"] in ("marked", "curclosed")
             try:
                 h.do(act)
             except HarnessRefusal as ex:
+                target = act["c"] if act["name"] in ("Respond", "LateStart", "ConnFails") else \
+                    (_fn(states[i - 1]["on"]).get(act["r"]) if act["name"] == "Timeout" else None)
+                if shut and states[i - 1]["sd"] in ("marked", "curclosed") and target in shut:
+                    # the running shutdown() of the code has already closed this connection (it is free to close them
+                    # in another order than the behaviour being replayed): the behaviour ends here, nothing is judged
+                    return {"step": i, "action": act, "choice": True, "signature": "choice", "diff": {}}, met
                 return {"step": i, "action": act, "signature": "replay:%s:refused" % act["name"],
                         "diff": {"_refused": {"spec": "enabled", "code": str(ex)}}}, met
             except Exception as ex:                     # the code under test left the envelope
                 return {"step": i, "action": act, "signature": "replay:%s:exception:%s" % (act["name"], type(ex).__name__),
                         "diff": {"_exception": {"spec": "no exception", "code": "%s: %s" % (type(ex).__name__, ex)}}}, met
             sv = spec_view(s)
-            d = diff(sv, h.project(), s["late"])
+            d = diff(sv, h.project(), s["late"], shut, window)
             if d:
                 sig = classify(act, states[i - 1], s, d)
                 rec = {"step": i, "action": act, "diff": d, "signature": sig}
@@ -699,7 +735,7 @@ def replay(constants, states, repair=True):
                     except Exception as ex:
                         rec["repair_failed"] = "%s: %s" % (type(ex).__name__, ex)
                         return rec, met
-                    d2 = diff(sv, h.project(), s["late"])
+                    d2 = diff(sv, h.project(), s["late"], shut, window)
                     if d2:
                         rec["after_repair"] = d2
                         rec["signature"] = sig + "+other"
@@ -730,6 +766,7 @@ def _post(p, reqs, n):
         "cur": p["cur"], "trash": sorted(p["trash"]), "replacing": p["replacing"], "shutdown": p["shutdown"],
         "queued": p["queued"], "opened": p["opened"],
         "st": [p["st"][r] for r in reqs], "on": [p["on"][r] for r in reqs], "late": p.get("late", 0),
+        "win": False,
     }
 
 
@@ -741,6 +778,7 @@ def record(constants, rng, max_events=60, p_fail=0.08, p_shutdown=0.08):
     h = PoolHarness(constants)
     events = []
     fails = cfails = 0
+    sstep = 0                            # 0 none, 1 marked, 2 current closed, 3 shutdown() over (events emitted so far)
     staggered = rng.random() < 0.6       # mostly one request at a time: timeouts pile up before the next borrow
     try:
         while len(events) < max_events:
@@ -801,12 +839,12 @@ def record(constants, rng, max_events=60, p_fail=0.08, p_shutdown=0.08):
                 ops += [{"e": "ReplacePublish"}] * 3
             elif h.tphase == "retire":
                 ops += [{"e": "ReplaceRetire"}] * 3
-            if h.sphase == "none" and not h.pool.is_shutdown and rng.random() < p_shutdown:
+            if sstep == 0 and h.sphase == "none" and not h.pool.is_shutdown and rng.random() < p_shutdown:
                 ops.append({"e": "ShutdownMark"})
-            elif h.sphase == "marked":
-                ops += [{"e": "ShutdownCloseCur"}] * 2
-            elif h.sphase == "curclosed":
-                ops += [{"e": "ShutdownCloseTrash"}] * 2
+            elif sstep == 1:
+                ops = [{"e": "ShutdownCloseCur"}]            # recorded runs do not interleave inside shutdown() (the replay does)
+            elif sstep == 2:
+                ops = [{"e": "ShutdownCloseTrash"}]          # a no-op for the harness when shutdown() has already returned
             if not ops:
                 break
             ev = dict(rng.choice(ops))
@@ -817,7 +855,10 @@ def record(constants, rng, max_events=60, p_fail=0.08, p_shutdown=0.08):
                     cfails += 1
                 if ev["e"] == "ReplaceOpen" and not ev["f"]:
                     fails += 1
+                if ev["e"].startswith("Shutdown"):
+                    sstep += 1
                 ev["post"] = _post(h.project(), reqs, n)
+                ev["post"]["win"] = sstep in (1, 2)
                 bad = h.abandoned()
                 if bad:
                     ev["close_log"] = bad
